@@ -35,3 +35,14 @@ kc = callforms.compute_known(r)
 out4 = os.path.join(os.path.dirname(out), "known_callforms.json")
 json.dump(kc, open(out4, "w"), indent=0, sort_keys=True)
 print(len(kc), "callees with keyword-passed parameters in known_callforms.json")
+
+# parameter lists of every function of the reference tree (signature-drift detection: a rule written against the positional
+# reading of a private function's parameters cannot be trusted once an IDE "change signature" reordered them)
+out5 = os.path.join(os.path.dirname(out), "known_signatures.json")
+sig = {}
+for q, f in r.funcs.items():
+    a = f.node.args
+    sig[q] = [x.arg for x in a.posonlyargs + a.args] + (["*" + a.vararg.arg] if a.vararg else []) + \
+        [x.arg for x in a.kwonlyargs] + (["**" + a.kwarg.arg] if a.kwarg else [])
+json.dump(sig, open(out5, "w"), indent=0, sort_keys=True)
+print(len(sig), "signatures in known_signatures.json")
